@@ -218,3 +218,115 @@ Theorem C04_source_filter_match :
             end) pb cur name).
 Proof. exact gen_filter_match_is_model. Qed.
 Print Assumptions C04_source_filter_match.
+
+(* ================================================================================================
+   Second round (DESIGN 11.7): the small decisions OUTSIDE the classic decision functions -- the
+   command-line plumbing of cargo-nextest/src/dispatch.rs and TestRunnerBuilder::build, the decision
+   after each attempt, the platform guards, the spawn-time set-up, the threads-required argument.
+   [MC] is Model/CliRun.v (written from the documented behaviour of the options), [PC] its facts.
+   ================================================================================================ *)
+
+(* ---- facts about Model/CliRun.v, at the level of the property texts *)
+
+(* C08 "with --no-capture at most one test runs at a time": for EVERY message format and every other
+   option the runner's thread count is 1 and nothing is captured ... *)
+Theorem C08_cli_no_capture_any_format :
+  forall o f pt pm ncpus s,
+    MC.runner_of o true f pt pm ncpus = Some s -> MC.rs_capture s = MC.CapNone /\ MC.rs_test_threads s = 1.
+Proof. exact PC.runner_no_capture. Qed.
+Print Assumptions C08_cli_no_capture_any_format.
+
+(* ... hence (C08_no_capture_serial) the queue built with that count never has two tests in progress. *)
+Theorem C08_cli_no_capture_one_at_a_time :
+  forall o f pt pm ncpus s grps items ops,
+    MC.runner_of o true f pt pm ncpus = Some s ->
+    Forall (fun it => 1 <= NextestModel.Model.FutureQueue.it_w it) items ->
+    (length (NextestModel.Model.FutureQueue.running
+               (fst (NextestModel.Model.FutureQueue.fq_run
+                       (NextestModel.Model.FutureQueue.fq_new (MC.rs_test_threads s) grps items) ops))) <= 1)%nat.
+Proof. exact PC.runner_no_capture_one_at_a_time. Qed.
+Print Assumptions C08_cli_no_capture_one_at_a_time.
+
+(* C08: --test-threads / NEXTEST_TEST_THREADS replaces the profile's value (when output is captured) *)
+Theorem C08_cli_threads_beat_profile :
+  forall nc f t prof ncpus,
+    nc = false ->
+    MC.effective_test_threads (MC.capture_strategy_of nc f) (Some t) prof ncpus = MC.threads_compute ncpus t.
+Proof. exact PC.cli_threads_beat_profile. Qed.
+Print Assumptions C08_cli_threads_beat_profile.
+
+(* C10: --max-fail beats --no-fail-fast beats --fail-fast beats the profile *)
+Theorem C10_cli_max_fail_flag_wins :
+  forall m nff ff prof, MC.max_fail_of (Some m) nff ff prof = m.
+Proof. exact PC.max_fail_flag_wins. Qed.
+Print Assumptions C10_cli_max_fail_flag_wins.
+Theorem C10_cli_no_fail_fast_is_all :
+  forall ff prof, MC.max_fail_of None true ff prof = None.
+Proof. exact PC.no_fail_fast_beats_fail_fast. Qed.
+Print Assumptions C10_cli_no_fail_fast_is_all.
+Theorem C10_cli_fail_fast_is_one :
+  forall prof, MC.max_fail_of None false true prof = Some 1.
+Proof. exact PC.fail_fast_is_one. Qed.
+Print Assumptions C10_cli_fail_fast_is_one.
+Theorem C10_cli_profile_by_default :
+  forall prof, MC.max_fail_of None false false prof = prof.
+Proof. exact PC.profile_max_fail_by_default. Qed.
+Print Assumptions C10_cli_profile_by_default.
+
+(* C07 / C06: the policy --retries N / NEXTEST_RETRIES builds is Model/RetryResolve.v's force_retries *)
+Theorem C07_cli_forced_retries_is_resolve :
+  forall cli env,
+    NextestModel.Model.RetryResolve.force_retries cli env =
+    MC.forced_retries (NextestModel.Model.RetryResolve.clap_retries cli env).
+Proof. exact PC.forced_retries_is_resolve. Qed.
+Print Assumptions C07_cli_forced_retries_is_resolve.
+
+(* ---- the same, tied to the source text *)
+
+(* C08 / C16: the capture strategy App::exec_run computes and hands to TestRunnerOpts::to_builder (the
+   argument of that call, with the `let`s it depends on). Honouring --no-capture for the human format
+   only falsifies it. *)
+Theorem C08_source_cap_strat :
+  forall nc f, cap_to_model (G.exec_run_cap_strat nc f) = MC.capture_strategy_of nc (fmt_to_model f).
+Proof. exact gen_cap_strat_is_model. Qed.
+Print Assumptions C08_source_cap_strat.
+
+(* C08: the value TestRunnerBuilder::build stores in TestRunnerInner.test_threads *)
+Theorem C08_source_build_test_threads :
+  forall b pt ncpus,
+    G.build_test_threads b pt ncpus =
+    MC.effective_test_threads (cap_to_model (G.TestRunnerBuilder_capture_strategy b))
+      (option_map threads_to_model (G.TestRunnerBuilder_test_threads b)) (threads_to_model pt) ncpus.
+Proof. exact gen_build_test_threads_is_model. Qed.
+Print Assumptions C08_source_build_test_threads.
+
+(* C08 / C10 / C07: the whole path command line -> App::exec_run's capture strategy ->
+   TestRunnerOpts::to_builder (with the TestRunnerBuilder setters and derive(Default)) ->
+   TestRunnerBuilder::build: the capture strategy, thread count, max-fail and forced retry policy the
+   runner is built with are [MC.runner_of] of the options, for every option combination. *)
+Theorem C08_source_runner_settings :
+  forall o nc f pt pm ncpus,
+    option_map (settings_of_builder pt pm ncpus) (G.TestRunnerOpts_to_builder o (G.exec_run_cap_strat nc f)) =
+    MC.runner_of (opts_to_model o) nc (fmt_to_model f) (threads_to_model pt) (mf_to_model pm) ncpus.
+Proof. exact gen_runner_settings_is_model. Qed.
+Print Assumptions C08_source_runner_settings.
+
+(* C08, the property's own sentence on the source text: with --no-capture the thread count the runner is
+   built with is 1 and nothing is captured, for EVERY message format and every other option. *)
+Theorem C08_source_no_capture_serial :
+  forall o f pt ncpus b,
+    G.TestRunnerOpts_to_builder o (G.exec_run_cap_strat true f) = Some b ->
+    G.build_test_threads b pt ncpus = 1 /\ G.build_capture_strategy b = G.CaptureStrategy_None.
+Proof. exact gen_no_capture_serial. Qed.
+Print Assumptions C08_source_no_capture_serial.
+
+(* C01: the process exit status of BOTH entry points -- `cargo nextest run` (Command::Run arm of AppOpts::exec:
+   `app.exec_run(..)?; Ok(0)`) and `cargo ntr` (NtrOpts::exec: the value of exec_run itself) -- composed with the
+   final match of exec_run and with main(): exit_code (summarize_final s) p. Returning Ok(100) from exec_run, which
+   the Command::Run arm discards, falsifies it. *)
+Theorem C01_source_command_exit :
+  forall e s p,
+    process_exit (entry_gen_exit e (G.exec_run_exit s p)) =
+    MC.entry_exit e (MR.summarize_final (stats_to_model s)) (policy_to_model p).
+Proof. exact gen_command_exit_is_model. Qed.
+Print Assumptions C01_source_command_exit.
